@@ -30,15 +30,15 @@ pub fn count(s: &str) {
 /// Compare an observed defect with its tolerance. Returns true when the clause is BROKEN
 /// (observed > tol, or not a number). Also maintains the headroom counters
 /// `near4:<clause>` / `near16:<clause>` (observed above tol/4, tol/16) used for calibration.
-pub fn broken(clause: &str, observed: f64, tol: f64) -> bool {
+pub fn broken(op: &str, clause: &str, observed: f64, tol: f64) -> bool {
     if !(observed <= tol) {
         return true;
     }
     if tol > 0.0 {
         if observed > tol / 4.0 {
-            count(&format!("near4:{}", clause));
+            count(&format!("near4:{}:{}", op, clause));
         } else if observed > tol / 16.0 {
-            count(&format!("near16:{}", clause));
+            count(&format!("near16:{}:{}", op, clause));
         }
     }
     false
@@ -94,4 +94,165 @@ pub fn is_symmetric(a: &Mat) -> bool {
 
 pub fn hash_mat(h: u64, a: &Mat) -> u64 {
     a.iter().fold(h, |h, r| mc::hash::mix(h, mc::hash::h_f64s(r)))
+}
+
+// ---- allocation-free defect measures (hot path of the oracle) ------------------------------------
+
+/// max |C - X*Y| over all entries
+pub fn prod_defect_max(c: &Mat, x: &Mat, y: &Mat) -> f64 {
+    let k = y.len();
+    let mut worst = 0.0f64;
+    for (ci, xi) in c.iter().zip(x) {
+        for (j, cij) in ci.iter().enumerate() {
+            let mut s = 0.0;
+            for l in 0..k {
+                s += xi[l] * y[l][j];
+            }
+            let d = (cij - s).abs();
+            if d.is_nan() {
+                return f64::INFINITY;
+            }
+            worst = worst.max(d);
+        }
+    }
+    worst
+}
+
+/// max |P*A - L*U|
+pub fn lu_defect_max(p: &Mat, a: &Mat, l: &Mat, u: &Mat) -> f64 {
+    let n = a.len();
+    let mut worst = 0.0f64;
+    for i in 0..n {
+        for j in 0..n {
+            let mut s = 0.0;
+            let mut t = 0.0;
+            for k in 0..n {
+                s += p[i][k] * a[k][j];
+                t += l[i][k] * u[k][j];
+            }
+            let d = (s - t).abs();
+            if d.is_nan() {
+                return f64::INFINITY;
+            }
+            worst = worst.max(d);
+        }
+    }
+    worst
+}
+
+/// max |A - X*X^T|
+pub fn llt_defect_max(a: &Mat, l: &Mat) -> f64 {
+    let n = a.len();
+    let mut worst = 0.0f64;
+    for i in 0..n {
+        for j in 0..n {
+            let mut s = 0.0;
+            for k in 0..n {
+                s += l[i][k] * l[j][k];
+            }
+            let d = (a[i][j] - s).abs();
+            if d.is_nan() {
+                return f64::INFINITY;
+            }
+            worst = worst.max(d);
+        }
+    }
+    worst
+}
+
+/// max |A - U*diag(s)*V^T|
+pub fn usvt_defect_max(a: &Mat, u: &Mat, s: &[f64], v: &Mat) -> f64 {
+    let mut worst = 0.0f64;
+    for (i, ai) in a.iter().enumerate() {
+        for (j, aij) in ai.iter().enumerate() {
+            let mut t = 0.0;
+            for (k, sk) in s.iter().enumerate() {
+                t += u[i][k] * sk * v[j][k];
+            }
+            let d = (aij - t).abs();
+            if d.is_nan() {
+                return f64::INFINITY;
+            }
+            worst = worst.max(d);
+        }
+    }
+    worst
+}
+
+/// max |Q^T Q - I|
+pub fn orth_defect_max(q: &Mat) -> f64 {
+    let m = q.len();
+    let n = if m == 0 { 0 } else { q[0].len() };
+    let mut worst = 0.0f64;
+    for a in 0..n {
+        for b in a..n {
+            let mut s = 0.0;
+            for r in q.iter().take(m) {
+                s += r[a] * r[b];
+            }
+            let d = (s - if a == b { 1.0 } else { 0.0 }).abs();
+            if d.is_nan() {
+                return f64::INFINITY;
+            }
+            worst = worst.max(d);
+        }
+    }
+    worst
+}
+
+/// Frobenius norm without rescaling (entries of this harness stay within 2^+-200)
+pub fn fro(a: &Mat) -> f64 {
+    let mut s = 0.0;
+    for r in a {
+        for x in r {
+            s += x * x;
+        }
+    }
+    if s.is_nan() {
+        f64::INFINITY
+    } else {
+        s.sqrt()
+    }
+}
+
+/// R = A*X - B
+pub fn residual(a: &Mat, x: &Mat, b: &Mat) -> Mat {
+    let n = x.len();
+    b.iter()
+        .enumerate()
+        .map(|(i, bi)| {
+            bi.iter()
+                .enumerate()
+                .map(|(j, bij)| {
+                    let mut s = 0.0;
+                    for k in 0..n {
+                        s += a[i][k] * x[k][j];
+                    }
+                    s - bij
+                })
+                .collect()
+        })
+        .collect()
+}
+
+/// |A^T R|_F
+pub fn at_r_fro(a: &Mat, r: &Mat) -> f64 {
+    let m = a.len();
+    let n = if m == 0 { 0 } else { a[0].len() };
+    let p = if r.is_empty() { 0 } else { r[0].len() };
+    let mut s = 0.0;
+    for c in 0..n {
+        for j in 0..p {
+            let mut t = 0.0;
+            for i in 0..m {
+                t += a[i][c] * r[i][j];
+            }
+            s += t * t;
+        }
+    }
+    if s.is_nan() {
+        f64::INFINITY
+    } else {
+        s.sqrt()
+    }
 }
